@@ -619,7 +619,7 @@ func runHistory(c kv) string {
 				m := e.VerifMachine()
 				// the optimizer patches the compiler's buffer in place, so the
 				// compiler's own output is taken from a second, unoptimized preparation
-				u := evalfilter.New(src)
+				u := evalfilter.New(e.Script) // (the script the evaluator holds now: the host may have assigned another)
 				uerr := u.Prepare([]byte{evalfilter.NoOptimize})
 				if uerr != nil {
 					emit("P|ok|UNOPT-REJECTED|" + encProgram(m.VerifConstants(), m.VerifBytecode(), m.VerifFunctions()))
@@ -677,6 +677,10 @@ func runHistory(c kv) string {
 			emit(fmt.Sprintf("%s|%s|%s|%d|%d|%s", res, tl.final(), encVars(e), scopes, residue, printed))
 		case "getvar":
 			emit("G|" + encValue(e.GetVariable(unhex(p[1]))))
+		case "rescript":
+			// the host assigns the public Script field; the next Prepare compiles the new text
+			e.Script = unhex(p[1])
+			emit("U")
 		case "badprepare":
 			// the host replaces the script by one that does not parse, prepares (which must fail, not panic),
 			// and puts the script back: a Prepare that fails must leave the evaluator as it was
